@@ -233,6 +233,9 @@ int main(void)
 	PROP(rc == 0, "flush succeeds");
 	for (i = 0; i < F; i++)
 		PROP(vf_dev[i] == Mb[i], "after flush the backing file holds exactly the written bytes");
+	/* blocks evicted earlier (reuse_cache) reached the device by a bare pwrite: only an fsync issued by
+	 * EVERY flush makes them durable, whether or not this flush itself had anything left to write */
+	PROP(vf_fsyncs == 1, "flush always ends with an fsync of the device");
 #elif OP == OP_CACHE_OFF
 	rc = unix_set_option(ch, "cache", "off");
 	PROP(rc == 0, "cache=off succeeds");
